@@ -1,5 +1,5 @@
 import SFV.Driver.Json
-import SFV.Model.Hbar
+import SFV.Model.HbarObs
 /-! Driver for the hbar layer (C15).  Ops: `hbar.compile` (front-end operations → back-end calls at a given
 `s = sqrt(hbar/2)`, optionally after `rescale`), `hbar.result` (returned measurement values),
 `hbar.state` (a history of observer calls on a `BaseGaussianState` built from hbar = 2 data),
@@ -95,12 +95,66 @@ def utilsOp (j : Json) : R Json := do
   let u := utilsCoherent s (← getRat j "re") (← getRat j "im")
   pure <| jrats [u.1.1, u.1.2, u.2]
 
+/-! ### part 2 -/
+
+def bstateOp (j : Json) : R Json := do
+  let s ← getRat j "s"
+  let n ← getNat j "n"
+  let w ← asRatList (← j.getObjVal? "w")
+  let mu ← asRatMat (← j.getObjVal? "mu2")
+  let covs ← (← getArr j "cov2").mapM asRatMat
+  let mua := (mu.map List.toArray).toArray
+  let cova := (covs.map fun c => (c.map List.toArray).toArray).toArray
+  let st := mkBState s n w (fun i k => (mua.getD i #[]).getD k 0) (fun i a b => ((cova.getD i #[]).getD a #[]).getD b 0)
+  let calls ← getArr j "calls"
+  let out ← calls.mapM fun c => do
+    let m ← getStr c "m"
+    let mode ← getNat c "mode"
+    match m with
+    | "meanPhoton" => pure (jrats [(bMeanPhoton st mode).1, (bMeanPhoton st mode).2])
+    | "displacement" => pure (jrats [(bDisplacement st mode).1, (bDisplacement st mode).2])
+    | "quad" => do
+      let q := bQuad st mode (← getRat c "c") (← getRat c "sn")
+      pure (jrats [q.1 / s, q.2 / (s * s)])
+    | "redIdx" => pure (natList (bRedIdx (← getNatList c "modes")))
+    | _ => throw s!"hbar.bstate: unknown call {m}"
+  pure (jarr out)
+
+def fockQuadOp (j : Json) : R Json := do
+  let s ← getRat j "s"
+  let D ← getNat j "D"
+  let sq ← asRatList (← j.getObjVal? "sq")
+  let rr ← asRatMat (← j.getObjVal? "re")
+  let ri ← asRatMat (← j.getObjVal? "im")
+  let sqa := sq.toArray
+  let rra := (rr.map List.toArray).toArray
+  let ria := (ri.map List.toArray).toArray
+  let q := fockQuad s (← getRat j "c") (← getRat j "sn") (fun n => sqa.getD n 0) D
+    (fun i k => (rra.getD i #[]).getD k 0) (fun i k => (ria.getD i #[]).getD k 0)
+  pure (jrats [q.1, q.2])
+
+def decompOp (j : Json) : R Json := do
+  let s ← getRat j "s"
+  let r ← asRatList (← j.getObjVal? "r")
+  let modes ← getNatList j "modes"
+  pure <| jarr ((compileProg s (gaussianDecompDisp (G := String) r modes)).map jCall)
+
+def compileAtOp (j : Json) : R Json := do
+  let sb ← getRat j "sBuild"
+  let s ← getRat j "s"
+  let ops ← (← getArr j "ops").mapM parseOp
+  pure <| jarr ((ops.flatMap (compileAt sb s)).map jCall)
+
 def handler (op : String) (j : Json) : Option (R Json) :=
   match op with
   | "hbar.compile" => some (compileOp j)
   | "hbar.result" => some (resultOp j)
   | "hbar.state" => some (stateOp j)
   | "hbar.utils" => some (utilsOp j)
+  | "hbar.bstate" => some (bstateOp j)
+  | "hbar.fockquad" => some (fockQuadOp j)
+  | "hbar.decomp" => some (decompOp j)
+  | "hbar.compileAt" => some (compileAtOp j)
   | _ => none
 
 end SFV.Drv.Hbar
